@@ -21,6 +21,34 @@ fn legal_chunking(ch: &[usize], cs: usize) -> bool {
     ch.iter().all(|&c| c >= 1 && c <= cs)
 }
 
+/// Honest key pairs chosen by the VALUE of the private key or by the SHAPE of the public key (the latter found by a
+/// search over derived private keys). Shared by C01 and C06.
+pub fn shaped_idents(seed: u64) -> Vec<Ident> {
+    let mut xz = derive32(seed, "c06-xor-zero");
+    let x = xz.iter().fold(0u8, |a, b| a ^ b);
+    xz[31] ^= x;
+    let mut one = [0u8; 32];
+    one[0] = 1;
+    let mut v: Vec<Ident> = [("xor-zero", xz), ("all-0x42", [0x42; 32]), ("integer-1", one), ("all-ones", [0xff; 32]), ("all-0x80", [0x80; 32])].iter().map(|(n, k)| Ident { name: n, sk: *k, pk: r::x25519_base(k) }).collect();
+    let shapes: Vec<(&'static str, Box<dyn Fn(&[u8; 32]) -> bool + Sync>)> = vec![
+        ("pk-ends-7f-starts-ed-or-more", Box::new(|pk| pk[31] == 0x7f && pk[0] >= 0xed)),
+        ("pk-ends-7f", Box::new(|pk| pk[31] == 0x7f)),
+        ("pk-ends-00", Box::new(|pk| pk[31] == 0x00)),
+        ("pk-starts-00", Box::new(|pk| pk[0] == 0x00)),
+        ("pk-starts-ff", Box::new(|pk| pk[0] == 0xff)),
+        ("pk-starts-01-ends-small", Box::new(|pk| pk[0] <= 0x01 && pk[31] < 0x10)),
+        ("pk-starts-ec-or-more", Box::new(|pk| pk[0] >= 0xec && pk[31] >= 0x70)),
+    ];
+    let cands: Vec<([u8; 32], [u8; 32])> = (0..40_000u32).into_par_iter().map(|i| { let sk = derive32(seed, &format!("c06-shape-{}", i)); (sk, r::x25519_base(&sk)) }).collect();
+    for (name, pred) in &shapes {
+        match cands.iter().find(|(_, pk)| pred(pk)) {
+            Some((sk, pk)) => v.push(Ident { name, sk: *sk, pk: *pk }),
+            None => crate::report::machinery(&format!("key-shape search found no key for {}", name)),
+        }
+    }
+    v
+}
+
 /// encrypt side, key mode, public API: Rust output == REF.write(same inputs, observed chunking)
 fn enc_key_case(rep: &Report, s: &Ident, rc: &Ident, e: &[u8; 32], pk: &[u8; 32], p: &[u8], sizes: &[usize]) {
     rep.eval(1);
@@ -256,6 +284,7 @@ fn golden(rep: &Report) {
 pub fn run(rep: &'static Report) {
     let seed = rep.seed;
     rep.set_rule("E-GRID vs REF: every point of the stated products (lengths x read partitions x key sets; every composition of L<=8 into chunk sizes; counter sweep; golden files) is executed once on the real code and compared byte for byte with the executable specification; distinct non-trivial = distinct (mode, direction, keys, length, partition/chunking) points with at least one chunk record compared");
+    rep.rule_add("Password channels: 8 passwords differing in blanks at their ends x {environment, controlling terminal, stdin terminal} x {password encrypt judged by REF, REF file opened by password decrypt}.");
     rep.rule_add("CLI password-file conformance in both directions x {fresh, pre-existing longer output}.");
     rep.assume("REF (OpenSSL-based executable specification written from the RFCs, the Noise spec and docs/file-format.txt) is the meaning of 'the documented format'; it is self-tested against RFC vectors and the published cacophony vector at start");
     rep.assume("key/plaintext values from seed-derived alphabets; 'earlier 1.x releases' are represented only by the repository's two test artefacts");
@@ -305,6 +334,66 @@ pub fn run(rep: &'static Report) {
         rep.nontrivial(format!("enc-key-b-{}-{}-{:?}", ki, l, sizes).as_bytes());
     });
 
+    // value shapes: plaintexts of zero / 0xff / repeating bytes, keys and nonces-to-be chosen by value (bytes that XOR
+    // to zero, all bytes equal, the integer 1, all ones), at one-chunk and three-chunk lengths, both directions
+    {
+        let mut xz = derive32(seed, "c06-xor-zero");
+        let x = xz.iter().fold(0u8, |a, b| a ^ b);
+        xz[31] ^= x;
+        let mut one = [0u8; 32];
+        one[0] = 1;
+        let special_keys: Vec<(&str, [u8; 32])> = vec![("xor-zero", xz), ("all-0x42", [0x42; 32]), ("integer-1", one), ("all-ones", [0xff; 32]), ("all-0x80", [0x80; 32])];
+        let mut special_ids: Vec<Ident> = special_keys.iter().map(|(n, k)| Ident { name: n, sk: *k, pk: r::x25519_base(k) }).collect();
+        // honest key pairs whose PUBLIC key has an extreme shape (found by search over derived private keys): a
+        // too-coarse "canonical encoding" / "small order" / "high bit" test on public keys would refuse them
+        {
+            let shapes: Vec<(&'static str, Box<dyn Fn(&[u8; 32]) -> bool + Sync>)> = vec![
+                ("pk-ends-7f-starts-ed-or-more", Box::new(|pk| pk[31] == 0x7f && pk[0] >= 0xed)),
+                ("pk-ends-7f", Box::new(|pk| pk[31] == 0x7f)),
+                ("pk-ends-00", Box::new(|pk| pk[31] == 0x00)),
+                ("pk-starts-00", Box::new(|pk| pk[0] == 0x00)),
+                ("pk-starts-ff", Box::new(|pk| pk[0] == 0xff)),
+                ("pk-starts-01-ends-small", Box::new(|pk| pk[0] <= 0x01 && pk[31] < 0x10)),
+                ("pk-starts-ec-or-more", Box::new(|pk| pk[0] >= 0xec && pk[31] >= 0x70)),
+            ];
+            let cands: Vec<([u8; 32], [u8; 32])> = (0..40_000u32).into_par_iter().map(|i| { let sk = derive32(seed, &format!("c06-shape-{}", i)); (sk, r::x25519_base(&sk)) }).collect();
+            for (name, pred) in &shapes {
+                match cands.iter().find(|(_, pk)| pred(pk)) {
+                    Some((sk, pk)) => special_ids.push(Ident { name, sk: *sk, pk: *pk }),
+                    None => crate::report::machinery(&format!("key-shape search found no key for {}", name)),
+                }
+            }
+        }
+        let shapes: Vec<(&str, Box<dyn Fn(usize) -> Vec<u8> + Sync>)> = vec![
+            ("zeros", Box::new(|l| vec![0u8; l])),
+            ("ones", Box::new(|l| vec![0xffu8; l])),
+            ("repeating", Box::new(|l| (0..l).map(|i| b"kestrel!"[i % 8]).collect())),
+            ("zero-tail", Box::new(move |l| { let mut v = plaintext(7, l); let z = l.saturating_sub(4096); v[z..].iter_mut().for_each(|b| *b = 0); v })),
+        ];
+        let mut vjobs: Vec<(usize, usize, usize, usize)> = vec![]; // (shape, length, sender, recipient) with 0 = ordinary ids[0]/ids[2]
+        for si in 0..shapes.len() {
+            for l in [1usize, 4096, CS, 2 * CS + 5] {
+                vjobs.push((si, l, 0, 0));
+            }
+        }
+        for k in 1..=special_ids.len() {
+            vjobs.push((0, 33, k, 0));
+            vjobs.push((0, 33, 0, k));
+            vjobs.push((2, CS + 1, k, k));
+        }
+        vjobs.par_iter().for_each(|&(si, l, sk, rk)| {
+            let p = (shapes[si].1)(l);
+            let s = if sk == 0 { &ids[0] } else { &special_ids[sk - 1] };
+            let rc = if rk == 0 { &ids[2] } else { &special_ids[rk - 1] };
+            // special values also for the ephemeral and the payload key when a special identity is involved
+            let (ee, pp) = if sk + rk > 0 && sk <= special_keys.len() && rk <= special_keys.len() { (special_keys[(sk + rk) % special_keys.len()].1, special_keys[(sk + 2 * rk + 1) % special_keys.len()].1) } else { (e, pk) };
+            enc_key_case(rep, s, rc, &ee, &pp, &p, &[]);
+            let ch: Vec<usize> = { let mut c = vec![]; let mut rem = l; while rem > 0 { let n = rem.min(CS); c.push(n); rem -= n; } c };
+            dec_key_case(rep, s, rc, &ee, &pp, &p, &ch);
+            rep.nontrivial(format!("value-shape-{}-{}-{}-{}", shapes[si].0, l, sk, rk).as_bytes());
+        });
+        rep.extra("value_shape_cases", json!(vjobs.len()));
+    }
     // password mode: public API (bounded number of scrypt runs) + hook with aad = magic for all partitions
     let pws: Vec<(Vec<u8>, [u8; 32])> = vec![
         (b"pw one".to_vec(), derive32(seed, "c06-salt-1")),
@@ -461,6 +550,7 @@ pub fn run(rep: &'static Report) {
     call_order_conformance(rep);
     // (iv) golden files
     golden(rep);
+    crate::chan::password_files(rep, "C06");
     rep.set_exhaustive(true);
 }
 
@@ -619,6 +709,11 @@ fn cli_conformance(rep: &Report) {
 }
 
 pub fn replay(rep: &'static Report, case: &Value) {
+    if case["kind"] == "chan" {
+        println!("  re-running the password-channel part");
+        crate::chan::password_files(rep, "C06");
+        return;
+    }
     if case["kind"] == "cli-conf" || case["kind"] == "topbit" || case["kind"] == "call-order" {
         println!("  re-running C06");
         run(rep);
